@@ -4,6 +4,11 @@
 From PM Require Import Lib.Bytes Lib.PyStr Net.Reverse.
 Open Scope N_scope.
 
+(* typed constructors for the generated literals (pair notation makes elaboration of long lists slow) *)
+Definition H (k ok v : bytes) : bytes * (bytes * bytes) := (k, (ok, v)).
+Definition M (i : N) (t : bytes) : N * bytes := (i, t).
+Definition A (h : bytes) (p : N) : bytes * N := (h, p).
+
 Definition tbl_match (tbl : list (N * bytes)) (i : N) (t : bytes) : bool :=
   existsb (fun e => (fst e =? i) && bytes_eqb (snd e) t) tbl.
 
@@ -26,9 +31,22 @@ Inductive case :=
 Definition code_of {A} (teardown : A -> bool) (r : result A) : N :=
   match r with
   | Ok a => if teardown a then 1 else 0
-  | Err (HttpProtocolException _) => 1
+  | Err (HttpProtocolException _) => 1      (* caught in HttpProtocolHandler.handle_data *)
+  | Err (OSError _) => 1                    (* caught (socket.error) in HttpProtocolHandler.handle_readables *)
   | Err e => 1000 + exn_code e
   end.
+
+(* When the handler wants to tear down but the client still has queued bytes it keeps running to
+   flush them; its next get_events() asks the reverse proxy for descriptors, and an upstream object
+   whose connect() failed raises TcpConnectionUninitializedException (code 98) there.
+   (Observed on the implementation; robustness of the executor against this is C05's subject.) *)
+Definition handler_code (st : state) (code : N) : N :=
+  if code =? 1 then
+    match client_queue st, upstream_ st with
+    | _ :: _, Some u => if up_connected u then 1 else 1098
+    | _, _ => 1
+    end
+  else code.
 
 Definition addr_eqb (x y : bytes * N) : bool := bytes_eqb (fst x) (fst y) && (snd x =? snd y).
 Fixpoint list_eqb {A} (eqb : A -> A -> bool) (x y : list A) : bool :=
@@ -41,20 +59,24 @@ Fixpoint list_eqb {A} (eqb : A -> A -> bool) (x y : list A) : bool :=
 Definition up_bytes (st : state) : bytes :=
   match upstream_ st with Some u => concat (up_buffer u) | None => [] end.
 
+(* bytes that reach the client socket: everything queued, except when get_events() raised before the flush *)
+Definition delivered (st : state) (code : N) : bytes :=
+  if code =? 1098 then [] else concat (client_queue st).
+
 Definition check_case (c : case) : bool :=
   match c with
   | CReq cfg tbl ps co wo req rs reads e =>
       let '(st, rs', r) := on_request_complete (tbl_match tbl) cfg ps co wo req rs init_state in
-      let code := code_of (fun b : bool => b) r in
+      let code := handler_code st (code_of (fun b : bool => b) r) in
       let '(st2, r2) := if code =? 0 then read_all reads st else (st, r) in
       (code =? e_code e)
       && list_eqb addr_eqb (connect_log st) (e_connect e)
       && list_eqb bytes_eqb (wrap_log st) (e_wrap e)
       && bytes_eqb (up_bytes st) (e_up e)
-      && bytes_eqb (concat (client_queue st)) (e_client e)
+      && bytes_eqb (delivered st code) (e_client e)
       && (N.of_nat (length rs - length rs') =? e_draws e)
-      && (code_of (fun b : bool => b) r2 =? e_code_after e)
-      && bytes_eqb (concat (client_queue st2)) (e_client_after e)
+      && (handler_code st2 (code_of (fun b : bool => b) r2) =? e_code_after e)
+      && bytes_eqb (delivered st2 (handler_code st2 (code_of (fun b : bool => b) r2))) (e_client_after e)
   end.
 
 (* the model's own output, for replay files *)
@@ -62,5 +84,5 @@ Definition run_case (c : case) :=
   match c with
   | CReq cfg tbl ps co wo req rs reads e =>
       let '(st, rs', r) := on_request_complete (tbl_match tbl) cfg ps co wo req rs init_state in
-      (code_of (fun b : bool => b) r, connect_log st, wrap_log st, up_bytes st, concat (client_queue st))
+      (handler_code st (code_of (fun b : bool => b) r), connect_log st, wrap_log st, up_bytes st, concat (client_queue st), length rs')
   end.
